@@ -130,13 +130,31 @@ def run(v, tier, seed, replay):
         for j in range(len(f) + 1):
             for variant in (f[:j] + "+" + f[j:], f[:j] + "+" + f[j + 1:]):
                 corpus.append("-".join(base_fields[:fi] + [variant] + base_fields[fi + 1:]))
+    # every 7-bit byte (control characters included) and a few wider characters at every position of a valid traceparent,
+    # as a replacement and as an insertion: only hexadecimal digits (either case) may keep it decodable
+    valid = "-".join(base_fields)
+    sweep_chars = [chr(c) for c in range(128)] + ["\u0660", "\uff10", "\u00e9", "\u0131"]
+    for j in range(len(valid)):
+        for ch in sweep_chars:
+            corpus.append(valid[:j] + ch + valid[j + 1:])
+        for ch in ("\x10", "\x19", " ", "\t", "0", "_", "\u0660"):
+            corpus.append(valid[:j] + ch + valid[j:])
+    # the same for the id parsers
+    for ch in sweep_chars:
+        for j in (0, 7, 15):
+            corpus.append(("sid", base_fields[2][:j] + ch + base_fields[2][j + 1:]))
+        for j in (0, 16, 31):
+            corpus.append(("tid", base_fields[1][:j] + ch + base_fields[1][j + 1:]))
     if replay:
         import json
         rp = json.load(open(replay))
         corpus = [rp["input"]] if "input" in rp else corpus
         n = 0
     for s in corpus:
-        lines.append("dec " + hx(s)); expect.append(("dec", s))
+        if isinstance(s, tuple):
+            lines.append("%s_parse %s" % (s[0], hx(s[1]))); expect.append(("%s_parse" % s[0], s[1]))
+        else:
+            lines.append("dec " + hx(s)); expect.append(("dec", s))
     for i in range(n):
         k = r.below(10)
         if k < 3:
